@@ -1,7 +1,7 @@
 /-
   Translator tie for relate/geomgraph: `TopologyPosition` (topology_position.rs) and `IntersectionMatrix::{set, set_at_least,
   set_at_least_if_in_both}` (intersection_matrix.rs): the hand-written model (`GeoModel/GeomGraph.lean`, `RelateImpl.lean`,
-  `RelateSpec.lean`, `RelateImplNodes.lean`) equals the terms regenerated from the Rust bodies (`GeoModel/Gen/GraphGen.lean`).
+  `RelateSpec.lean`, `RelateImplNodes.lean`) and `Label` (label.rs) equal the terms regenerated from the Rust bodies (`GeoModel/Gen/GraphGen.lean`).
   `Direction` is regenerated from its declaration; the model has one accessor / setter per direction.
 -/
 import GeoModel.GeomGraph
@@ -57,5 +57,42 @@ theorem imSetAtLeast_eq (m : IM) (a b : Pos) (d : Dim) : Gen.imSetAtLeast m a b 
 theorem imSetAtLeastIfInBoth_eq (m : IM) (pa pb : Option Pos) (d : Dim) :
     Gen.imSetAtLeastIfInBoth m pa pb d = RI.setAtLeastIfBoth m pa pb d := by
   cases pa <;> cases pb <;> simp [Gen.imSetAtLeastIfInBoth, RI.setAtLeastIfBoth, imSetAtLeast_eq]
+
+/-! ### `Label` -/
+
+theorem label_eq (l : Label) (idx : Nat) (p : Pos) :
+    Gen.labelSwapArgs l = l.swap ∧ Gen.labelEmptyLineOrPoint = Label.emptyLine ∧ Gen.labelEmptyArea = Label.emptyArea ∧
+    Gen.labelFlip l = l.flip ∧
+    Gen.labelPosition l idx .on = l.onPos idx ∧ Gen.labelPosition l idx .left = l.leftPos idx ∧
+    Gen.labelPosition l idx .right = l.rightPos idx ∧ Gen.labelOnPosition l idx = l.onPos idx ∧
+    Gen.labelSetPosition l idx .on p = l.setOn idx p ∧ Gen.labelSetPosition l idx .left p = l.setLeft idx p ∧
+    Gen.labelSetPosition l idx .right p = l.setRight idx p ∧ Gen.labelSetOnPosition l idx p = l.setOn idx p ∧
+    Gen.labelSetAllPositions l idx p = l.setAll idx p ∧ Gen.labelSetAllPositionsIfEmpty l idx p = l.setAllIfEmpty idx p ∧
+    Gen.labelGeometryCount l = l.geometryCount ∧ Gen.labelIsEmpty l idx = l.isEmptyAt idx ∧
+    Gen.labelIsAnyEmpty l idx = l.isAnyEmptyAt idx ∧ Gen.labelIsArea l = l.isArea ∧ Gen.labelIsGeomArea l idx = l.isGeomArea idx ∧
+    Gen.labelIsLine l idx = l.isLineAt idx := by
+  refine ⟨rfl, rfl, rfl, ?_, ?_, ?_, ?_, ?_, ?_, ?_, ?_, ?_, ?_, ?_, ?_, ?_, ?_, ?_, ?_, ?_⟩
+  · cases l; simp [Gen.labelFlip, Label.set, Label.get, Label.flip, tpFlip_eq]
+  · exact (tpGet_eq _).1
+  · exact (tpGet_eq _).2.1
+  · exact (tpGet_eq _).2.2
+  · exact (tpGet_eq _).1
+  · simp [Gen.labelSetPosition, Label.setOn, (tpSetPosition_eq _ _).1]
+  · simp [Gen.labelSetPosition, Label.setLeft, (tpSetPosition_eq _ _).2.1]
+  · simp [Gen.labelSetPosition, Label.setRight, (tpSetPosition_eq _ _).2.2]
+  · simp [Gen.labelSetOnPosition, Label.setOn, (tpSetPosition_eq _ _).1]
+  · simp [Gen.labelSetAllPositions, Label.setAll, tpSetAll_eq]
+  · simp [Gen.labelSetAllPositionsIfEmpty, Label.setAllIfEmpty, tpSetAllIfEmpty_eq]
+  · simp only [Gen.labelGeometryCount, Label.geometryCount, tpIsEmpty_eq]
+    simp only [List.filter]
+    cases ha : l.a.isEmpty <;> cases hb : l.b.isEmpty <;> simp
+  · simp [Gen.labelIsEmpty, Label.isEmptyAt, tpIsEmpty_eq]
+  · simp [Gen.labelIsAnyEmpty, Label.isAnyEmptyAt, tpIsAnyEmpty_eq]
+  · simp [Gen.labelIsArea, Label.isArea, tpIsArea_eq, Label.get]
+  · simp [Gen.labelIsGeomArea, Label.isGeomArea, tpIsArea_eq]
+  · simp [Gen.labelIsLine, Label.isLineAt, tpIsLine_eq]
+
+theorem labelNew_eq (idx : Nat) (t : TopoPos) : Gen.labelNew idx t = Label.new idx t := by
+  cases t <;> rfl
 
 end Geo.Proofs.TRAN2Graph
